@@ -16,6 +16,12 @@ Quantification carried by the theorems:
   on its i-th `Read`, clamped to 1 .. min(room, bytes remaining));
 * every trailing byte string `rest` following the values that are received.
 
+The send half exists in two models: the value-level `Sender` (queue of byte
+strings) about which the main theorems are stated, and `Ring`, where the three
+physical write buffers, the slice headers in `toWriter` and the aliasing of
+`WriteBuf` are explicit; `C11_conn_ring_refines` proves the ownership
+invariant of the ring and that it refines `Sender` step for step.
+
 Domain guard (explicit hypothesis `Val.Valid`): `u16 < 2^16`, `u32 < 2^32`,
 payload and list lengths `< 2^32`, labels `< 2^128`.  Outside it the Go code
 truncates (`uint32(val)`) and nothing is claimed.
